@@ -401,165 +401,165 @@ func analyzeEpochs(fi *funcInfo) {
 	joinAlias := map[string]string{}
 	finalRound := false
 	for round := 0; ; round++ { // (body not re-indented: the fixed point below is unchanged)
-	if round > 0 {
-		in = map[*ssa.BasicBlock]map[string]string{}
-		out = map[*ssa.BasicBlock]map[string]string{}
-		fi.epoch = map[ssa.Instruction]map[string]string{}
-	}
-	for iter := 0; iter < 50; iter++ {
-		changed := false
-		for _, b := range fn.Blocks {
-			st := map[string]string{}
-			for f := range fi.fields {
-				if len(b.Preds) == 0 {
-					st[f] = "entry"
-					continue
-				}
-				val := ""
-				same := true
-				for _, p := range b.Preds {
-					pv, ok := out[p][f]
-					if !ok {
-						continue // not yet computed
+		if round > 0 {
+			in = map[*ssa.BasicBlock]map[string]string{}
+			out = map[*ssa.BasicBlock]map[string]string{}
+			fi.epoch = map[ssa.Instruction]map[string]string{}
+		}
+		for iter := 0; iter < 50; iter++ {
+			changed := false
+			for _, b := range fn.Blocks {
+				st := map[string]string{}
+				for f := range fi.fields {
+					if len(b.Preds) == 0 {
+						st[f] = "entry"
+						continue
+					}
+					val := ""
+					same := true
+					for _, p := range b.Preds {
+						pv, ok := out[p][f]
+						if !ok {
+							continue // not yet computed
+						}
+						if val == "" {
+							val = pv
+						} else if val != pv {
+							same = false
+						}
 					}
 					if val == "" {
-						val = pv
-					} else if val != pv {
-						same = false
+						continue
 					}
-				}
-				if val == "" {
-					continue
-				}
-				if !same {
-					val = fmt.Sprintf("phi@%d", b.Index)
-					if a, ok := joinAlias[f+"|"+val]; ok {
-						val = a // a join that an earlier round found to merge one epoch with itself (see below)
-					}
-				}
-				st[f] = val
-			}
-			if fmt.Sprint(in[b]) != fmt.Sprint(st) {
-				in[b] = st
-				changed = true
-			}
-			cur := map[string]string{}
-			for k, v := range st {
-				cur[k] = v
-			}
-			for i, ins := range b.Instrs {
-				switch v := ins.(type) {
-				case *ssa.UnOp:
-					if v.Op == token.MUL {
-						if _, f, ok := slotOf(v.X); ok && fi.fields[f] {
-							m := map[string]string{f: cur[f]}
-							fi.epoch[ins] = m
-							if classInvField[f] {
-								fi.snapshot(ins, cur)
-							}
+					if !same {
+						val = fmt.Sprintf("phi@%d", b.Index)
+						if a, ok := joinAlias[f+"|"+val]; ok {
+							val = a // a join that an earlier round found to merge one epoch with itself (see below)
 						}
 					}
-				case *ssa.Return:
-					fi.snapshot(ins, cur)
-				case *ssa.Store:
-					if _, f, ok := slotOf(v.Addr); ok && fi.fields[f] {
-						cur[f] = fmt.Sprintf("st@%d.%d", b.Index, i)
-						fi.epoch[ins] = map[string]string{f: cur[f]}
-					}
-					// a store of a whole struct value replaces every field of an object of that type
-					if _, isStruct := v.Val.Type().Underlying().(*types.Struct); isStruct {
-						prefix := types.TypeString(v.Val.Type(), nil) + "."
+					st[f] = val
+				}
+				if fmt.Sprint(in[b]) != fmt.Sprint(st) {
+					in[b] = st
+					changed = true
+				}
+				cur := map[string]string{}
+				for k, v := range st {
+					cur[k] = v
+				}
+				for i, ins := range b.Instrs {
+					switch v := ins.(type) {
+					case *ssa.UnOp:
+						if v.Op == token.MUL {
+							if _, f, ok := slotOf(v.X); ok && fi.fields[f] {
+								m := map[string]string{f: cur[f]}
+								fi.epoch[ins] = m
+								if classInvField[f] {
+									fi.snapshot(ins, cur)
+								}
+							}
+						}
+					case *ssa.Return:
+						fi.snapshot(ins, cur)
+					case *ssa.Store:
+						if _, f, ok := slotOf(v.Addr); ok && fi.fields[f] {
+							cur[f] = fmt.Sprintf("st@%d.%d", b.Index, i)
+							fi.epoch[ins] = map[string]string{f: cur[f]}
+						}
+						// a store of a whole struct value replaces every field of an object of that type
+						if _, isStruct := v.Val.Type().Underlying().(*types.Struct); isStruct {
+							prefix := types.TypeString(v.Val.Type(), nil) + "."
+							for f := range fi.fields {
+								if strings.HasPrefix(f, prefix) {
+									cur[f] = fmt.Sprintf("st@%d.%d", b.Index, i)
+								}
+							}
+						}
+					case ssa.CallInstruction:
+						if fi.callEpoch == nil {
+							fi.callEpoch = map[ssa.Instruction]map[string]string{}
+						}
+						snap := map[string]string{}
+						for k, e := range cur {
+							snap[k] = e
+						}
+						fi.callEpoch[ins] = snap
+						fi.snapshot(ins, cur)
 						for f := range fi.fields {
-							if strings.HasPrefix(f, prefix) {
-								cur[f] = fmt.Sprintf("st@%d.%d", b.Index, i)
+							if strings.HasPrefix(f, "cell:") {
+								if cellCallMayModify(v, fi.cells[f]) {
+									cur[f] = fmt.Sprintf("call@%d.%d", b.Index, i)
+								}
+								continue
 							}
-						}
-					}
-				case ssa.CallInstruction:
-					if fi.callEpoch == nil {
-						fi.callEpoch = map[ssa.Instruction]map[string]string{}
-					}
-					snap := map[string]string{}
-					for k, e := range cur {
-						snap[k] = e
-					}
-					fi.callEpoch[ins] = snap
-					fi.snapshot(ins, cur)
-					for f := range fi.fields {
-						if strings.HasPrefix(f, "cell:") {
-							if cellCallMayModify(v, fi.cells[f]) {
+							if callMayModify(v, f) && !leafCallSpares(v, f) { // (a local struct behind leaf accessors: ext_x8.go)
 								cur[f] = fmt.Sprintf("call@%d.%d", b.Index, i)
-							}
-							continue
-						}
-						if callMayModify(v, f) && !leafCallSpares(v, f) { // (a local struct behind leaf accessors: ext_x8.go)
-							cur[f] = fmt.Sprintf("call@%d.%d", b.Index, i)
-							if os.Getenv("DBG") != "" {
-								fmt.Println("KILL", fn.Name(), f, v.String(), prog.Fset.Position(v.Pos()))
+								if os.Getenv("DBG") != "" {
+									fmt.Println("KILL", fn.Name(), f, v.String(), prog.Fset.Position(v.Pos()))
+								}
 							}
 						}
 					}
 				}
+				if fmt.Sprint(out[b]) != fmt.Sprint(cur) {
+					out[b] = cur
+					changed = true
+				}
 			}
-			if fmt.Sprint(out[b]) != fmt.Sprint(cur) {
-				out[b] = cur
-				changed = true
+			if !changed {
+				break
 			}
 		}
-		if !changed {
+		// the aliases in force must be consistent with the result
+		consistent := true
+		for _, b := range fn.Blocks {
+			for f := range fi.fields {
+				x, aliased := joinAlias[f+"|"+fmt.Sprintf("phi@%d", b.Index)]
+				if !aliased {
+					continue
+				}
+				for _, p := range b.Preds {
+					if pv, ok := out[p][f]; ok && pv != x {
+						consistent = false
+					}
+				}
+			}
+		}
+		if !consistent {
+			joinAlias = map[string]string{}
+			finalRound = true // once more, without aliases
+			continue
+		}
+		if finalRound || round >= 5 {
 			break
 		}
-	}
-	// the aliases in force must be consistent with the result
-	consistent := true
-	for _, b := range fn.Blocks {
-		for f := range fi.fields {
-			x, aliased := joinAlias[f+"|"+fmt.Sprintf("phi@%d", b.Index)]
-			if !aliased {
-				continue
-			}
-			for _, p := range b.Preds {
-				if pv, ok := out[p][f]; ok && pv != x {
-					consistent = false
-				}
-			}
-		}
-	}
-	if !consistent {
-		joinAlias = map[string]string{}
-		finalRound = true // once more, without aliases
-		continue
-	}
-	if finalRound || round >= 5 {
-		break
-	}
-	found := false
-	for _, b := range fn.Blocks {
-		self := fmt.Sprintf("phi@%d", b.Index)
-		for f := range fi.fields {
-			if in[b][f] != self {
-				continue
-			}
-			x, n := "", 0
-			for _, p := range b.Preds {
-				pv, ok := out[p][f]
-				if !ok || pv == self {
+		found := false
+		for _, b := range fn.Blocks {
+			self := fmt.Sprintf("phi@%d", b.Index)
+			for f := range fi.fields {
+				if in[b][f] != self {
 					continue
 				}
-				if pv != x {
-					x = pv
-					n++
+				x, n := "", 0
+				for _, p := range b.Preds {
+					pv, ok := out[p][f]
+					if !ok || pv == self {
+						continue
+					}
+					if pv != x {
+						x = pv
+						n++
+					}
+				}
+				if n == 1 {
+					joinAlias[f+"|"+self] = x
+					found = true
 				}
 			}
-			if n == 1 {
-				joinAlias[f+"|"+self] = x
-				found = true
-			}
 		}
-	}
-	if !found {
-		break
-	}
+		if !found {
+			break
+		}
 	}
 	// (A1's post-pass over what is left: φ(v, self) = v, renamed consistently; ext_x1.go)
 	simplifyEpochJoinsX1(fi, in, out)
